@@ -2,6 +2,7 @@
 from __future__ import annotations
 
 import itertools
+import json
 import os
 import shutil
 import tempfile
@@ -55,6 +56,9 @@ def jobs(tier, seed):
         out.append(dict(name=f"reuse-{solver}", kind="reuse", solver=solver, devices=1, seed=seed, cost=40))
         for problem in ("forest", "de_moor", "hendrix", "mirjalili"):
             out.append(dict(name=f"real-{solver}-{problem}", kind="real", solver=solver, problem=problem, devices=1, seed=seed, cost=60))
+        # single precision requested: in a process where 64-bit mode is on anyway, and in fresh processes where it is off
+        out.append(dict(name=f"real-{solver}-forest-single-in-x64-process", kind="real", solver=solver, problem="forest", single=True, devices=1, seed=seed, cost=60))
+        out.append(dict(name=f"fresh-single-{solver}", kind="fresh", solver=solver, devices=1, seed=seed, cost=60))
     return out
 
 
@@ -77,7 +81,7 @@ def fill_symbolic(s, name, tag):
 
 def run_job(job):
     ob = Obligations(job)
-    return {"complete": run_complete, "steps": run_steps, "overrides": run_overrides, "errors": run_errors, "real": run_real, "reuse": run_reuse}[job["kind"]](job, ob)
+    return {"complete": run_complete, "steps": run_steps, "overrides": run_overrides, "errors": run_errors, "real": run_real, "reuse": run_reuse, "fresh": run_fresh}[job["kind"]](job, ob)
 
 
 def _explore(fn):
@@ -377,6 +381,8 @@ def run_real(job, ob):
             kw.update(shuffle_states=True, random_seed=5)
         if name != "rvi":
             kw["gamma"] = 0.8
+        if job.get("single"):
+            kw["jax_double_precision"] = False
         s = kit.make_solver(name, pb, **kw)
         held = capture_saves(s)
         s.solve(3)
@@ -396,12 +402,77 @@ def run_real(job, ob):
         v = kit.make_solver(name, shipped.build(problem, **small_problem_kwargs(problem)), **{k: v_ for k, v_ in kw.items() if not k.startswith("checkpoint") and k not in ("max_checkpoints", "enable_async_checkpointing")})
         v.load_checkpoint(d)
         ob.prove("load_checkpoint-bitwise-equal", [], _state_equal(held[last], v, name), cex=cexf, kind="load_checkpoint state bitwise equal (real Orbax)")
-        # continuing both gives identical results
+        # continuing both gives identical results (the restored one writes into its own directory: two live solvers must
+        # not write the same steps into one directory concurrently)
+        t2 = cls.restore(d, new_checkpoint_dir=os.path.join(base, "resume"))
         s.solve(2)
-        t.solve(2)
         s.checkpoint_manager.wait_until_finished()
-        t.checkpoint_manager.wait_until_finished()
-        ob.prove("continuation-identical", [], _state_equal(Held(s), t, name) or name == "savi", cex=cexf, kind="restored solver continues exactly like the original (fixed order)")
+        t2.solve(2)
+        t2.checkpoint_manager.wait_until_finished()
+        ob.prove("continuation-identical", [], _state_equal(Held(s), t2, name) or name == "savi", cex=cexf, kind="restored solver continues exactly like the original (fixed order)")
+    finally:
+        shutil.rmtree(base, ignore_errors=True)
+    return ob.result()
+
+
+FRESH_SCRIPT = r'''
+import json, sys
+import jax, jax.numpy as jnp, numpy as np
+name, mode, ckdir = sys.argv[1], sys.argv[2], sys.argv[3]
+from mdpax.problems import Forest
+import mdpax.solvers as ms
+cls = {"vi": ms.ValueIteration, "pi": ms.PolicyIteration, "rvi": ms.RelativeValueIteration, "pvi": ms.PeriodicValueIteration, "savi": ms.SemiAsyncValueIteration}[name]
+def state(s):
+    d = dict(iteration=int(s.iteration), dtype=str(np.asarray(s.values).dtype), values=np.asarray(s.values).tobytes().hex(), x64=bool(jax.config.jax_enable_x64),
+             gamma_dtype=str(jnp.asarray(s.gamma).dtype))
+    if hasattr(s, "gain"): d["gain"] = float(s.gain)
+    return d
+if mode == "make":
+    kw = dict(verbose=0, epsilon=1e-12, jax_double_precision=False, checkpoint_dir=ckdir, checkpoint_frequency=1, max_checkpoints=2, enable_async_checkpointing=False)
+    if name == "pvi": kw["period"] = 2
+    if name != "rvi": kw["gamma"] = 0.9
+    s = cls(Forest(S=5, r1=7.0), **kw)
+    s.solve(3)
+    saved = state(s)
+    s.checkpoint_frequency = 0   # the continuation of the original must not add checkpoints to the directory
+    s.solve(1)
+    print("@@", json.dumps(dict(saved=saved, continued=state(s))))
+else:
+    x64_before = bool(jax.config.jax_enable_x64)
+    t = cls.restore(ckdir, new_checkpoint_dir=ckdir + "-resume", checkpoint_frequency=0)
+    restored = state(t)
+    t.solve(1)
+    print("@@", json.dumps(dict(x64_before=x64_before, restored=restored, continued=state(t))))
+'''
+
+
+def run_fresh(job, ob):
+    """single-precision run saved in one fresh process (64-bit mode off) and restored in another"""
+    import subprocess
+    import sys
+    name = job["solver"]
+    base = tempfile.mkdtemp(prefix="mdpv-fresh-")
+    cexf = lambda m: dict(kind="fresh", solver=name)
+    try:
+        d = os.path.join(base, "ck")
+        env = dict(os.environ)
+        env.pop("JAX_ENABLE_X64", None)
+        res = {}
+        for mode in ("make", "restore"):
+            cp = subprocess.run([sys.executable, "-c", FRESH_SCRIPT, name, mode, d], env=env, capture_output=True, text=True, timeout=900)
+            line = [l for l in cp.stdout.splitlines() if l.startswith("@@")]
+            res[mode] = json.loads(line[0][2:]) if line else None
+            if res[mode] is None:
+                ob.extra.setdefault("errors", []).append(cp.stderr[-400:])
+        ob.prove("fresh-processes-complete", [], res["make"] is not None and res["restore"] is not None, cex=cexf, kind="save and restore in fresh processes complete")
+        if res["make"] and res["restore"]:
+            a, b = res["make"], res["restore"]
+            ob.prove("scenario-is-single-precision", [], a["saved"]["dtype"] == "float32" and a["saved"]["x64"] is False and b["x64_before"] is False, cex=cexf,
+                     kind="reachability: the run was single precision in a process without 64-bit mode")
+            ob.prove("restored-state-bitwise-equal", [], b["restored"] == dict(a["saved"]), cex=cexf,
+                     kind="restored state (dtype, bytes, iteration, gain, process precision mode) equals the saved one (fresh processes, single precision)")
+            ob.prove("continuation-identical", [], b["continued"] == a["continued"], cex=cexf, kind="restored solver continues exactly like the original (fresh processes, single precision)")
+            ob.extra["fresh"] = dict(saved=a["saved"]["dtype"], restored=b["restored"]["dtype"])
     finally:
         shutil.rmtree(base, ignore_errors=True)
     return ob.result()
@@ -524,8 +595,8 @@ def replay(data):
         except Exception as ex:
             return True, f"real run raised {type(ex).__name__}: {ex}"
     ob = Obligations(job)
-    if job["kind"] in ("real", "errors", "reuse"):
-        r = {"real": run_real, "errors": run_errors, "reuse": run_reuse}[job["kind"]](job, ob)
+    if job["kind"] in ("real", "errors", "reuse", "fresh"):
+        r = {"real": run_real, "errors": run_errors, "reuse": run_reuse, "fresh": run_fresh}[job["kind"]](job, ob)
         bad = [v["obligation"] for v in ob.violations]
         return bool(bad), f"{job['name']}: failing {bad}" if bad else f"{job['name']}: all hold"
     # model-level counterexamples are confirmed on the real Orbax with concrete states; only the facts the failing
